@@ -3,7 +3,8 @@
   11-bit digit arithmetic of bytes_to_mnemonic / mnemonic_to_bytes, and the table facts
   (`decide +kernel` over the generated BIP39 list).
 -/
-import Buidl.Model.Mnemonic
+import Buidl.Proofs.WordTable
+import Buidl.Proofs.PBKDF2
 import Buidl.Proofs.Bytes
 import Mathlib.Tactic.Ring
 import Mathlib.Tactic.NormNum
@@ -173,7 +174,7 @@ theorem digitsBE_getElem (n N i : Nat) (hi : i < n) :
       rw [e, Nat.pow_succ', Nat.div_div_eq_div_mul]
     · have e : i = n := by omega
       subst e
-      rw [List.getElem?_append_right (by rw [digitsBE_length]; exact Nat.le_refl _), digitsBE_length]
+      rw [List.getElem?_append_right (by rw [digitsBE_length]), digitsBE_length]
       simp
 
 theorem ofDigits_append (acc : Nat) (a b : List Nat) : ofDigits acc (a ++ b) = ofDigits (ofDigits acc a) b := by
@@ -236,5 +237,540 @@ theorem lookupAll_map_words (wl : WordList) (hu : KeysUnique wl.words) (ds : Lis
   | cons d r ih =>
     simp only [List.map_cons, lookupAll]
     rw [lookup_of_match wl hu d _ (hd d (by simp)) (matchesKey_self _), ih (fun x hx => hd x (by simp [hx]))]
+
+/-! ## entropy → words → entropy -/
+
+/-- arithmetic side conditions of one BIP39 size: `L` entropy bytes, `cs` checksum bits, `nw` words;
+    all read off the extracted constants -/
+structure SizeOK (L cs nw : Nat) : Prop where
+  hbits : Gen.b2mNumBits.contains (8 * L) = true
+  hcs : 8 * L / Gen.b2mCsDiv = cs
+  hcs8 : cs ≤ 8
+  hnw : (8 * L + cs) / Gen.b2mWordBits = nw
+  hsum : 8 * L + cs = 11 * nw
+  hcnt : Gen.m2bWordCounts.contains nw = true
+  hcs' : nw / Gen.m2bCsDiv = cs
+  hnb : (nw * Gen.m2bWordBits2 - cs) / Gen.m2bByteBits = L
+
+theorem sizeOK_16 : SizeOK 16 4 12 := by constructor <;> decide
+theorem sizeOK_20 : SizeOK 20 5 15 := by constructor <;> decide
+theorem sizeOK_24 : SizeOK 24 6 18 := by constructor <;> decide
+theorem sizeOK_28 : SizeOK 28 7 21 := by constructor <;> decide
+theorem sizeOK_32 : SizeOK 32 8 24 := by constructor <;> decide
+
+theorem sizeOK_of_length (L : Nat) (h : L = 16 ∨ L = 20 ∨ L = 24 ∨ L = 28 ∨ L = 32) :
+    ∃ cs nw, SizeOK L cs nw := by
+  rcases h with h | h | h | h | h <;> subst h
+  · exact ⟨_, _, sizeOK_16⟩
+  · exact ⟨_, _, sizeOK_20⟩
+  · exact ⟨_, _, sizeOK_24⟩
+  · exact ⟨_, _, sizeOK_28⟩
+  · exact ⟨_, _, sizeOK_32⟩
+
+theorem checksum_lt (h0 : UInt8) (cs : Nat) (hcs : cs ≤ 8) : h0.toNat / 2 ^ (8 - cs) < 2 ^ cs := by
+  apply Nat.div_lt_of_lt_mul
+  have : 2 ^ (8 - cs) * 2 ^ cs = 256 := by rw [← Nat.pow_add, Nat.sub_add_cancel hcs]
+  rw [this]; exact h0.toNat_lt
+
+/-- the number whose 11-bit groups are the words: entropy ‖ first `cs` bits of the digest's first byte -/
+def allBitsOf (e : Bytes) (h0 : UInt8) (cs : Nat) : Nat := beToNat e * 2 ^ cs + h0.toNat / 2 ^ (8 - cs)
+
+theorem bytesToWords_eq (sha256 : Bytes → Bytes) (wl : WordList) (hl : wl.words.length = 2048)
+    (e : Bytes) (cs nw : Nat) (ok : SizeOK e.length cs nw) (h0 : UInt8) (t : Bytes)
+    (hs : sha256 e = h0 :: t) :
+    bytesToWords sha256 wl e (8 * e.length)
+      = some ((digitsBE nw (allBitsOf e h0 cs)).map fun d => wl.words.getD d []) := by
+  have hc8 : ¬ cs > Gen.b2mCsFrom := by have := ok.hcs8; show ¬ cs > 8; omega
+  unfold bytesToWords
+  simp only [ok.hbits, Bool.not_true, Bool.false_eq_true, if_false, hs, ok.hcs, hc8, ok.hnw]
+  rw [bitsToWords_eq wl hl]
+  simp only [List.append_nil, allBitsOf]
+  rw [Nat.shiftRight_eq_div_pow, ← Nat.shiftLeft_add_eq_or_of_lt (checksum_lt h0 cs ok.hcs8),
+    Nat.shiftLeft_eq]
+
+theorem ofDigits_lt (ds : List Nat) (hd : ∀ d ∈ ds, d < 2048) : ∀ acc, ofDigits acc ds < (acc + 1) * 2048 ^ ds.length := by
+  induction ds with
+  | nil => intro acc; simp [ofDigits]
+  | cons d r ih =>
+    intro acc
+    have h1 := ih (fun x hx => hd x (by simp [hx])) (acc * 2048 + d)
+    have h2 : d < 2048 := hd d (by simp)
+    simp only [ofDigits, List.foldl_cons, List.length_cons] at *
+    calc _ < (acc * 2048 + d + 1) * 2048 ^ r.length := h1
+      _ ≤ ((acc + 1) * 2048) * 2048 ^ r.length := Nat.mul_le_mul_right _ (by omega)
+      _ = (acc + 1) * 2048 ^ (r.length + 1) := by rw [Nat.pow_succ']; ring
+
+theorem pow_split (L cs nw : Nat) (h : 8 * L + cs = 11 * nw) : (2048 : Nat) ^ nw = 256 ^ L * 2 ^ cs := by
+  have h1 : (2048 : Nat) = 2 ^ 11 := by norm_num
+  have h2 : (256 : Nat) = 2 ^ 8 := by norm_num
+  rw [h1, h2, ← Nat.pow_mul, ← Nat.pow_mul, ← Nat.pow_add, h]
+
+theorem natToBE_beToNat (b : Bytes) : natToBE (beToNat b) b.length = some b := by
+  have hlt : beToNat b < 256 ^ b.length := by
+    have := leToNat_lt b.reverse
+    rwa [← beToNat_reverse, List.reverse_reverse, List.length_reverse] at this
+  simp only [natToBE, hlt, if_true]
+  rw [natToBE'_beToNat]
+
+theorem beToNat_lt (b : Bytes) : beToNat b < 256 ^ b.length := by
+  have := leToNat_lt b.reverse
+  rwa [← beToNat_reverse, List.reverse_reverse, List.length_reverse] at this
+
+/-- decoding a word list whose indices are `idx` -/
+theorem wordsToBytes_of_indices (sha256 : Bytes → Bytes) (wl : WordList) (ws : List PyStr) (idx : List Nat)
+    (hidx : lookupAll wl ws = some idx) (L cs : Nat) (ok : SizeOK L cs ws.length) :
+    wordsToBytes sha256 wl ws =
+      match natToBE (ofDigits 0 idx / 2 ^ cs) L with
+      | none => none
+      | some s =>
+        match sha256 s with
+        | [] => none
+        | h0 :: _ => if ofDigits 0 idx % 2 ^ cs != h0.toNat / 2 ^ (8 - cs) then none else some s := by
+  have hc8 : ¬ cs > Gen.m2bCsFrom := by have := ok.hcs8; show ¬ cs > 8; omega
+  unfold wordsToBytes
+  simp only [ok.hcnt, Bool.not_true, Bool.false_eq_true, if_false, wordsToBits_eq, hidx, Option.map_some,
+    ok.hcs', ok.hnb, and_mask, Nat.shiftRight_eq_div_pow, hc8]
+  rfl
+
+theorem lookupAll_length (wl : WordList) : ∀ (ws : List PyStr) (idx : List Nat),
+    lookupAll wl ws = some idx → idx.length = ws.length := by
+  intro ws
+  induction ws with
+  | nil => intro idx h; simp [lookupAll] at h; subst h; rfl
+  | cons w r ih =>
+    intro idx h
+    rw [lookupAll] at h
+    cases hw : wl.lookup w with
+    | none => rw [hw] at h; cases h
+    | some i =>
+      cases hr : lookupAll wl r with
+      | none => rw [hw, hr] at h; cases h
+      | some is =>
+        rw [hw, hr] at h
+        simp only [Option.some.injEq] at h
+        subst h; simp [ih is hr]
+
+theorem lookupAll_lt (wl : WordList) : ∀ (ws : List PyStr) (idx : List Nat),
+    lookupAll wl ws = some idx → ∀ d ∈ idx, d < wl.words.length := by
+  intro ws
+  induction ws with
+  | nil => intro idx h; simp [lookupAll] at h; subst h; simp
+  | cons w r ih =>
+    intro idx h
+    rw [lookupAll] at h
+    cases hw : wl.lookup w with
+    | none => rw [hw] at h; cases h
+    | some i =>
+      cases hr : lookupAll wl r with
+      | none => rw [hw, hr] at h; cases h
+      | some is =>
+        rw [hw, hr] at h
+        simp only [Option.some.injEq] at h
+        subst h
+        intro d hd
+        simp only [List.mem_cons] at hd
+        rcases hd with hd | hd
+        · subst hd; exact (lookup_some wl _ w hw).1
+        · exact ih is hr d hd
+
+/-- mnemonic_to_bytes ∘ bytes_to_mnemonic on word lists -/
+theorem wordsToBytes_bytesToWords (sha256 : Bytes → Bytes) (wl : WordList) (hl : wl.words.length = 2048)
+    (hu : KeysUnique wl.words) (e : Bytes) (cs nw : Nat) (ok : SizeOK e.length cs nw)
+    (hne : sha256 e ≠ []) :
+    ∃ ws, bytesToWords sha256 wl e (8 * e.length) = some ws ∧ ws.length = nw ∧
+      wordsToBytes sha256 wl ws = some e := by
+  obtain ⟨h0, t, hs⟩ : ∃ h0 t, sha256 e = h0 :: t := by
+    cases h : sha256 e with
+    | nil => exact absurd h hne
+    | cons a b => exact ⟨a, b, rfl⟩
+  refine ⟨_, bytesToWords_eq sha256 wl hl e cs nw ok h0 t hs, by simp [digitsBE_length], ?_⟩
+  have hlen : ((digitsBE nw (allBitsOf e h0 cs)).map fun d => wl.words.getD d []).length = nw := by
+    simp [digitsBE_length]
+  have hidx := lookupAll_map_words wl hu (digitsBE nw (allBitsOf e h0 cs))
+    (fun d hd => by rw [hl]; exact digitsBE_lt _ _ d hd)
+  rw [wordsToBytes_of_indices sha256 wl _ _ hidx e.length cs (by rw [hlen]; exact ok)]
+  have hc := checksum_lt h0 cs ok.hcs8
+  have hN : allBitsOf e h0 cs < 2048 ^ nw := by
+    rw [pow_split e.length cs nw ok.hsum]
+    unfold allBitsOf
+    have := beToNat_lt e
+    calc _ < beToNat e * 2 ^ cs + 2 ^ cs := by omega
+      _ = (beToNat e + 1) * 2 ^ cs := by ring
+      _ ≤ 256 ^ e.length * 2 ^ cs := Nat.mul_le_mul_right _ this
+  rw [ofDigits_digitsBE, Nat.zero_mul, Nat.zero_add, Nat.mod_eq_of_lt hN]
+  have hpos : 0 < 2 ^ cs := Nat.pow_pos (by decide)
+  have hdiv : allBitsOf e h0 cs / 2 ^ cs = beToNat e := by
+    unfold allBitsOf
+    rw [Nat.mul_comm, Nat.mul_add_div hpos, Nat.div_eq_of_lt hc, Nat.add_zero]
+  have hmod : allBitsOf e h0 cs % 2 ^ cs = h0.toNat / 2 ^ (8 - cs) := by
+    unfold allBitsOf
+    rw [Nat.mul_comm, Nat.mul_add_mod, Nat.mod_eq_of_lt hc]
+  rw [hdiv, natToBE_beToNat]
+  simp only [hs, hmod, bne_self_eq_false, Bool.false_eq_true, if_false]
+
+/-! ## table facts -/
+
+theorem matchesKey_iff (w key : PyStr) : matchesKey w key = true ↔ key ∈ keysOf w := by
+  unfold matchesKey keysOf
+  generalize cmpOp Gen.wlPrefixOp w.length Gen.wlPrefixOver = b
+  cases b
+  · simp only [Bool.false_and, Bool.or_false, beq_iff_eq, Bool.false_eq_true, if_false, List.mem_singleton]
+    exact eq_comm
+  · simp only [Bool.true_and, Bool.or_eq_true, beq_iff_eq, if_true, List.mem_cons, List.not_mem_nil, or_false]
+    constructor
+    · rintro (h | h)
+      · right; exact h.symm
+      · left; exact h.symm
+    · rintro (h | h)
+      · right; exact h.symm
+      · left; exact h.symm
+
+theorem increasingFrom_pairwise : ∀ (l : List Nat) (p : Nat), increasingFrom p l = true →
+    (∀ x ∈ l, p < x) ∧ l.Pairwise (· < ·) := by
+  intro l
+  induction l with
+  | nil => intro p _; simp
+  | cons a r ih =>
+    intro p h
+    simp only [increasingFrom, Bool.and_eq_true, decide_eq_true_eq] at h
+    obtain ⟨h1, h2⟩ := ih a h.2
+    refine ⟨?_, List.pairwise_cons.mpr ⟨h1, h2⟩⟩
+    intro x hx
+    simp only [List.mem_cons] at hx
+    rcases hx with hx | hx
+    · subst hx; exact h.1
+    · exact Nat.lt_trans h.1 (h1 x hx)
+
+theorem increasing_pairwise (l : List Nat) (h : increasing l = true) : l.Pairwise (· < ·) := by
+  cases l with
+  | nil => simp
+  | cons a r =>
+    obtain ⟨h1, h2⟩ := increasingFrom_pairwise r a h
+    exact List.pairwise_cons.mpr ⟨h1, h2⟩
+
+theorem keysUnique_of_tableOK (ws : List PyStr) (h : tableOK ws = true) : KeysUnique ws := by
+  simp only [tableOK, Bool.and_eq_true] at h
+  have hp := increasing_pairwise _ h.1
+  rw [List.pairwise_map, List.pairwise_flatMap] at hp
+  have hpw := hp.2
+  rw [List.pairwise_iff_getElem] at hpw
+  have key : ∀ i j k, i < j → (hj : j < ws.length) →
+      matchesKey (ws.getD i []) k = true → matchesKey (ws.getD j []) k = true → False := by
+    intro i j k hij hj hmi hmj
+    have hi : i < ws.length := by omega
+    have hgi : ws.getD i [] = ws[i] := by
+      rw [List.getD_eq_getElem?_getD, List.getElem?_eq_getElem hi]; rfl
+    have hgj : ws.getD j [] = ws[j] := by
+      rw [List.getD_eq_getElem?_getD, List.getElem?_eq_getElem hj]; rfl
+    rw [hgi, matchesKey_iff] at hmi
+    rw [hgj, matchesKey_iff] at hmj
+    exact Nat.lt_irrefl _ (hpw i j hi hj hij k hmi k hmj)
+  intro i j k hi hj hmi hmj
+  rcases Nat.lt_trichotomy i j with hlt | heq | hgt
+  · exact absurd (key i j k hlt hj hmi hmj) id
+  · exact heq
+  · exact absurd (key j i k hgt hi hmj hmi) id
+
+theorem lowerWord_isWord (w : PyStr) (h : lowerWord w = true) :
+    IsWord w ∧ asciiLower w = w ∧ ∀ c ∈ w, 97 ≤ c ∧ c ≤ 122 := by
+  simp only [lowerWord, Bool.and_eq_true, Bool.not_eq_true', List.all_eq_true, decide_eq_true_eq] at h
+  obtain ⟨hne, hall⟩ := h
+  refine ⟨⟨?_, ?_⟩, ?_, hall⟩
+  · intro hw; subst hw; simp at hne
+  · intro c hc
+    obtain ⟨h1, h2⟩ := hall c hc
+    simp only [isSpace, Bool.or_eq_false_iff, Bool.and_eq_false_iff, decide_eq_false_iff_not, beq_eq_false_iff_ne]
+    omega
+  · unfold asciiLower
+    conv => rhs; rw [← List.map_id w]
+    apply List.map_congr_left
+    intro c hc
+    obtain ⟨h1, h2⟩ := hall c hc
+    have : ¬ (65 ≤ c ∧ c ≤ 90) := by omega
+    simp [this]
+
+theorem tableOK_words (ws : List PyStr) (h : tableOK ws = true) : ∀ w ∈ ws, lowerWord w = true := by
+  simp only [tableOK, Bool.and_eq_true, List.all_eq_true] at h
+  exact h.2
+
+/-- `len(word) > 4` with the extracted operator and bound -/
+theorem cmpPrefix (n : Nat) : cmpOp Gen.wlPrefixOp n Gen.wlPrefixOver = decide (n > 4) := by
+  simp [cmpOp, Gen.wlPrefixOp]
+
+/-- a key is stored for a word iff it is the word itself or, for a word of more than four letters, its first four -/
+theorem matchesKey_eq (w key : PyStr) :
+    matchesKey w key = true ↔ w = key ∨ (w.length > 4 ∧ w.take 4 = key) := by
+  unfold matchesKey
+  rw [cmpPrefix]
+  simp
+
+/-- facts about a loaded table, from the kernel-checked `checkWL` -/
+structure TableOK (n : Nat) (wl : WordList) : Prop where
+  hlen : wl.words.length = n
+  huniq : KeysUnique wl.words
+  hlower : ∀ w ∈ wl.words, lowerWord w = true
+
+theorem tableOK_of_check (n : Nat) (o : Option WordList) (h : checkWL n o = true) :
+    ∃ wl, o = some wl ∧ TableOK n wl := by
+  cases o with
+  | none => simp [checkWL] at h
+  | some wl =>
+    simp only [checkWL, Bool.and_eq_true, beq_iff_eq] at h
+    exact ⟨wl, rfl, h.1, keysUnique_of_tableOK _ h.2, tableOK_words _ h.2⟩
+
+theorem bip39_table : ∃ wl, BIP39? = some wl ∧ TableOK 2048 wl := tableOK_of_check _ _ bip39_check
+
+theorem slip39_table : ∃ wl, Buidl.Shamir.SLIP39? = some wl ∧ TableOK 1024 wl :=
+  tableOK_of_check _ _ slip39_check
+
+theorem getD_mem (ws : List PyStr) (d : Nat) (hd : d < ws.length) : ws.getD d [] ∈ ws := by
+  rw [List.getD_eq_getElem?_getD, List.getElem?_eq_getElem hd]
+  exact List.getElem_mem hd
+
+/-! ## strings: mnemonic_to_bytes (bytes_to_mnemonic e) = e -/
+
+theorem mnemonic_roundtrip (sha256 : Bytes → Bytes) (wl : WordList) (tok : TableOK 2048 wl)
+    (e : Bytes) (cs nw : Nat) (ok : SizeOK e.length cs nw) (hne : sha256 e ≠ []) :
+    ∃ m, bytesToMnemonic sha256 wl e (8 * e.length) = some m ∧ mnemonicToBytes sha256 wl m = some e := by
+  obtain ⟨ws, h1, _, h3⟩ := wordsToBytes_bytesToWords sha256 wl tok.hlen tok.huniq e cs nw ok hne
+  refine ⟨pyJoin ws, by simp [bytesToMnemonic, h1], ?_⟩
+  unfold mnemonicToBytes
+  rw [pySplit_pyJoin ws, h3]
+  -- every produced word is a table word
+  obtain ⟨h0, t, hs⟩ : ∃ h0 t, sha256 e = h0 :: t := by
+    cases h : sha256 e with
+    | nil => exact absurd h hne
+    | cons a b => exact ⟨a, b, rfl⟩
+  rw [bytesToWords_eq sha256 wl tok.hlen e cs nw ok h0 t hs] at h1
+  simp only [Option.some.injEq] at h1
+  subst h1
+  intro w hw
+  simp only [List.mem_map] at hw
+  obtain ⟨d, hd, rfl⟩ := hw
+  have hdl : d < wl.words.length := by rw [tok.hlen]; exact digitsBE_lt _ _ d hd
+  exact (lowerWord_isWord _ (tok.hlower _ (getD_mem _ _ hdl))).1
+
+/-! ## acceptance -/
+
+theorem lookupAll_iff (wl : WordList) : ∀ (ws : List PyStr) (idx : List Nat),
+    lookupAll wl ws = some idx ↔ List.Forall₂ (fun w i => wl.lookup w = some i) ws idx := by
+  intro ws
+  induction ws with
+  | nil =>
+    intro idx
+    constructor
+    · intro h; simp [lookupAll] at h; subst h; exact List.Forall₂.nil
+    · intro h; cases h; rfl
+  | cons w r ih =>
+    intro idx
+    constructor
+    · intro h
+      rw [lookupAll] at h
+      cases hw : wl.lookup w with
+      | none => rw [hw] at h; cases h
+      | some i =>
+        cases hr : lookupAll wl r with
+        | none => rw [hw, hr] at h; cases h
+        | some is =>
+          rw [hw, hr] at h
+          simp only [Option.some.injEq] at h
+          subst h
+          exact List.Forall₂.cons hw ((ih is).mp hr)
+    · intro h
+      cases h with
+      | cons h1 h2 => rw [lookupAll, h1, (ih _).mpr h2]
+
+theorem natToBE_some' {n w : Nat} (h : n < 256 ^ w) : natToBE n w = some (natToBE' w n) := by
+  simp [natToBE, h]
+
+/-- mnemonic_to_bytes accepts exactly: valid length, every word a stored key, checksum bits equal -/
+theorem wordsToBytes_iff (sha256 : Bytes → Bytes) (hne : ∀ b, sha256 b ≠ []) (wl : WordList)
+    (hl : wl.words.length = 2048) (ws : List PyStr) (e : Bytes) :
+    wordsToBytes sha256 wl ws = some e ↔
+      (ws.length = 12 ∨ ws.length = 15 ∨ ws.length = 18 ∨ ws.length = 21 ∨ ws.length = 24) ∧
+      ∃ idx, lookupAll wl ws = some idx ∧
+        e = natToBE' ((11 * ws.length - ws.length / 3) / 8) (ofDigits 0 idx / 2 ^ (ws.length / 3)) ∧
+        ∃ h0 t, sha256 e = h0 :: t ∧
+          ofDigits 0 idx % 2 ^ (ws.length / 3) = h0.toNat / 2 ^ (8 - ws.length / 3) := by
+  by_cases hlen : ws.length = 12 ∨ ws.length = 15 ∨ ws.length = 18 ∨ ws.length = 21 ∨ ws.length = 24
+  · simp only [hlen, true_and]
+    cases hidx : lookupAll wl ws with
+    | none =>
+      have : wordsToBytes sha256 wl ws = none := by
+        unfold wordsToBytes
+        simp [wordsToBits_eq, hidx]
+      simp [this]
+    | some idx =>
+      obtain ⟨L, cs, ok, hL, hcs⟩ : ∃ L cs, SizeOK L cs ws.length ∧
+          L = (11 * ws.length - ws.length / 3) / 8 ∧ cs = ws.length / 3 := by
+        rcases hlen with h | h | h | h | h <;> rw [h]
+        · exact ⟨_, _, sizeOK_16, by decide, by decide⟩
+        · exact ⟨_, _, sizeOK_20, by decide, by decide⟩
+        · exact ⟨_, _, sizeOK_24, by decide, by decide⟩
+        · exact ⟨_, _, sizeOK_28, by decide, by decide⟩
+        · exact ⟨_, _, sizeOK_32, by decide, by decide⟩
+      rw [wordsToBytes_of_indices sha256 wl ws idx hidx L cs ok, ← hL, ← hcs]
+      have hdl := lookupAll_lt wl ws idx hidx
+      have hil := lookupAll_length wl ws idx hidx
+      have hN : ofDigits 0 idx < 2048 ^ ws.length := by
+        have := ofDigits_lt idx (fun d hd => by rw [← hl]; exact hdl d hd) 0
+        simpa [hil] using this
+      have hdiv : ofDigits 0 idx / 2 ^ cs < 256 ^ L := by
+        rw [pow_split L cs ws.length ok.hsum] at hN
+        exact Nat.div_lt_of_lt_mul (by rw [Nat.mul_comm]; exact hN)
+      rw [natToBE_some' hdiv]
+      simp only [Option.some.injEq, exists_eq_left']
+      cases hs : sha256 (natToBE' L (ofDigits 0 idx / 2 ^ cs)) with
+      | nil => exact absurd hs (hne _)
+      | cons h0 t =>
+        simp only
+        constructor
+        · intro h
+          split at h
+          · cases h
+          · rename_i hc
+            simp only [bne_iff_ne, ne_eq, not_not] at hc
+            simp only [Option.some.injEq] at h
+            subst h
+            exact ⟨rfl, h0, t, hs, hc⟩
+        · rintro ⟨rfl, h0', t', hs', hc⟩
+          rw [hs] at hs'
+          cases hs'
+          simp [hc]
+  · constructor
+    · intro h
+      exfalso
+      unfold wordsToBytes at h
+      have : Gen.m2bWordCounts.contains ws.length = false := by
+        simp only [Gen.m2bWordCounts, List.contains_eq_mem, List.mem_cons, List.not_mem_nil, or_false,
+          decide_eq_false_iff_not]
+        exact hlen
+      rw [this] at h
+      simp at h
+    · intro h; exact absurd h.1 hlen
+
+/-! ## from_mnemonic: normalisation and the seed -/
+
+theorem asciiLower_of_lower (w : PyStr) (h : ∀ c ∈ w, 97 ≤ c ∧ c ≤ 122) : asciiLower w = w := by
+  unfold asciiLower
+  conv => rhs; rw [← List.map_id w]
+  apply List.map_congr_left
+  intro c hc
+  have := h c hc
+  have h' : ¬ (65 ≤ c ∧ c ≤ 90) := by omega
+  simp [h']
+
+/-- a stored key consists of lower-case letters -/
+theorem key_lower (wl : WordList) {n : Nat} (tok : TableOK n wl) (w : PyStr) (i : Nat)
+    (h : wl.lookup w = some i) : ∀ c ∈ w, 97 ≤ c ∧ c ≤ 122 := by
+  obtain ⟨hi, hm⟩ := lookup_some wl i w h
+  have hlw := (lowerWord_isWord _ (tok.hlower _ (getD_mem _ _ hi))).2.2
+  rcases (matchesKey_eq _ _).mp hm with h1 | ⟨_, h2⟩
+  · rw [← h1]; exact hlw
+  · intro c hc
+    rw [← h2] at hc
+    exact hlw c (List.mem_of_mem_take hc)
+
+theorem normalize_eq (wl : WordList) {n : Nat} (tok : TableOK n wl) (w : PyStr) (i : Nat)
+    (h : wl.lookup w = some i) : wl.normalize w = some (wl.words.getD i []) := by
+  unfold WordList.normalize
+  rw [asciiLower_of_lower w (key_lower wl tok w i h), h]
+  have hi := (lookup_some wl i w h).1
+  show wl.words[i]? = _
+  rw [List.getD_eq_getElem?_getD, List.getElem?_eq_getElem hi]; rfl
+
+theorem mapM_normalize (wl : WordList) {n : Nat} (tok : TableOK n wl) : ∀ (ws : List PyStr) (idx : List Nat),
+    lookupAll wl ws = some idx → mapM? wl.normalize ws = some (idx.map fun i => wl.words.getD i []) := by
+  intro ws
+  induction ws with
+  | nil => intro idx h; simp [lookupAll] at h; subst h; rfl
+  | cons w r ih =>
+    intro idx h
+    rw [lookupAll] at h
+    cases hw : wl.lookup w with
+    | none => rw [hw] at h; cases h
+    | some i =>
+      cases hr : lookupAll wl r with
+      | none => rw [hw, hr] at h; cases h
+      | some is =>
+        rw [hw, hr] at h
+        simp only [Option.some.injEq] at h
+        subst h
+        simp [mapM?, normalize_eq wl tok w i hw, ih is hr]
+
+theorem utf8Encode_ascii : ∀ (s : PyStr), (∀ c ∈ s, c < 128) → utf8Encode s = some (s.map UInt8.ofNat) := by
+  intro s
+  induction s with
+  | nil => intro _; rfl
+  | cons c r ih =>
+    intro h
+    have hc : c < 0x80 := h c (by simp)
+    rw [utf8Encode, ih (fun x hx => h x (by simp [hx]))]
+    simp [hc]
+
+theorem pyJoin_mem : ∀ (ws : List PyStr) (c : Nat), c ∈ pyJoin ws → c = 32 ∨ ∃ w ∈ ws, c ∈ w := by
+  intro ws
+  induction ws with
+  | nil => intro c h; simp [pyJoin] at h
+  | cons w r ih =>
+    intro c h
+    cases r with
+    | nil => right; exact ⟨w, by simp, by simpa [pyJoin] using h⟩
+    | cons w' r' =>
+      have hj : pyJoin (w :: w' :: r') = w ++ 32 :: pyJoin (w' :: r') := rfl
+      rw [hj] at h
+      simp only [List.mem_append, List.mem_cons] at h
+      rcases h with h | h | h
+      · right; exact ⟨w, by simp, h⟩
+      · left; exact h
+      · rcases ih c h with h1 | ⟨x, hx, hc⟩
+        · left; exact h1
+        · right; exact ⟨x, by simp [List.mem_cons] at hx ⊢; right; exact hx, hc⟩
+
+theorem wordsToBytes_lookupAll (sha256 : Bytes → Bytes) (wl : WordList) (ws : List PyStr) (e : Bytes)
+    (h : wordsToBytes sha256 wl ws = some e) : ∃ idx, lookupAll wl ws = some idx := by
+  cases hidx : lookupAll wl ws with
+  | some idx => exact ⟨idx, rfl⟩
+  | none =>
+    exfalso
+    unfold wordsToBytes at h
+    rw [wordsToBits_eq, hidx] at h
+    split at h
+    · cases h
+    · simp at h
+
+/-- the normalised mnemonic: the full words of the indices, single spaces, as ASCII bytes -/
+def normalisedBytes (wl : WordList) (idx : List Nat) : Bytes :=
+  (pyJoin (idx.map fun i => wl.words.getD i [])).map UInt8.ofNat
+
+/-- `from_mnemonic` hands `from_seed` exactly
+    PBKDF2-PRF(password = normalised words, salt = "mnemonic" ‖ passphrase, c = 2048, dkLen = 64) (RFC 2898) -/
+theorem mnemonicToSeed_eq (sha256 : Bytes → Bytes) (prf : Bytes → Bytes → Bytes) (hLen : Nat)
+    (hh : ∀ k m, (prf k m).length = hLen) (h0 : 0 < hLen) (wl : WordList) {n : Nat} (tok : TableOK n wl)
+    (m : PyStr) (pw e : Bytes) (hacc : mnemonicToBytes sha256 wl m = some e) :
+    ∃ idx, lookupAll wl (pySplit m) = some idx ∧
+      mnemonicToSeed sha256 prf wl m pw
+        = Spec.pbkdf2 prf hLen (normalisedBytes wl idx) (Gen.seedSaltPrefix ++ pw) 2048 64 := by
+  obtain ⟨idx, hidx⟩ := wordsToBytes_lookupAll sha256 wl _ e hacc
+  refine ⟨idx, hidx, ?_⟩
+  unfold mnemonicToSeed
+  rw [hacc]
+  simp only [mapM_normalize wl tok _ idx hidx, hmacSha512Kdf]
+  have hascii : ∀ c ∈ pyJoin (idx.map fun i => wl.words.getD i []), c < 128 := by
+    intro c hc
+    rcases pyJoin_mem _ c hc with h | ⟨w, hw, hcw⟩
+    · omega
+    · simp only [List.mem_map] at hw
+      obtain ⟨i, hi, rfl⟩ := hw
+      have hil := lookupAll_lt wl _ idx hidx i hi
+      have := (lowerWord_isWord _ (tok.hlower _ (getD_mem _ _ hil))).2.2 c hcw
+      omega
+  rw [utf8Encode_ascii _ hascii]
+  exact pbkdf2Vendored_eq prf hLen hh h0 _ _ Gen.kdfIterations (by decide) Gen.kdfReadLen
+
+theorem mnemonicToSeed_reject (sha256 : Bytes → Bytes) (prf : Bytes → Bytes → Bytes) (wl : WordList)
+    (m : PyStr) (pw : Bytes) (h : mnemonicToBytes sha256 wl m = none) :
+    mnemonicToSeed sha256 prf wl m pw = none := by
+  unfold mnemonicToSeed; rw [h]
 
 end Buidl.Mnemonic
